@@ -60,7 +60,7 @@ Proof.
     set (nl := new_sleaves sha (i_inseq x) (cp_size (i_tree x)) (w_now w)).
     eapply Inv_upd with (i := i); try eassumption; fields; try reflexivity.
     + intros c k Hc. auto.
-    + destruct (loaded_wf _ _ HI Hx) as [Sz Rt].
+    + destruct (loaded_wf _ _ HI Hx) as (Sz & Rt & Ix).
       assert (RO : Inv.loaded (w_lockhist w) x /\
                    prefix (i_leaves x) (i_leaves x ++ nl) /\
                    wfcp (mkCp (c_name (i_cfg x)) (cp_size (i_tree x) + N.of_nat (length nl))
@@ -68,7 +68,8 @@ Proof.
                         (i_leaves x ++ nl) /\
                    (cp_ts (i_tree x) < w_now w)%Z).
       { split; [assumption|]. split; [exists nl; reflexivity|]. split; [|lia].
-        split; cbn [cp_size cp_root]; [rewrite app_length; lia|reflexivity]. }
+        split; cbn [cp_size cp_root]; [rewrite app_length; lia|]. split; [reflexivity|].
+        subst nl. rewrite Sz. apply idx_ok_app_new. exact Ix. }
       destruct RO as (L & P & W & T).
       unfold Inv.inst_inv.
       destruct (round_uploads _ _ _ _); cbn [i_pc];
@@ -268,7 +269,7 @@ Proof.
       cbn [fst]. upd_with i (upd_pc x PNone). { intros c k Hc; auto. } exact I.
     + pose proof HI as HI0. destruct HI0 as (C & LL & II & P). rewrite El in LL. cbn in LL.
       assert (C' : chain (w_lockhist w ++ [(c0, [])])).
-      { rewrite LL. cbn [app]. apply chain_single. split; reflexivity. }
+      { rewrite LL. cbn [app]. apply chain_single. split; [reflexivity|]. split; [reflexivity|apply idx_ok_nil]. }
       destruct (applied f) eqn:Eap.
       * destruct (succeeded f) eqn:Esu; cbn [fst].
         -- eapply Inv_ext with (i := i) (c := c0) (ls := []); try eassumption; fields; try reflexivity.
